@@ -33,6 +33,16 @@ def run(ctx):
         cases += part
         for c in cases:
             c["gases"] = list(range(0, 15)) if not c["id"].startswith("p") else [0, 1, 2, 3, 4]
+        # host-call charge boundary: k fallthroughs, an ecalli with an identifier that is unknown to the driver's host
+        # environment (charged 10, answered WHAT), then load_imm and trap, with every gas value 0..k+14
+        for k in (0, 1, 2):
+            for imm in ([44, 1], [0, 0, 1], [255], [255, 255, 255, 127]):      # 300, 65536, 2^64-1, 2^31-1
+                code = [1] * k + [10] + imm + [51, 3, 9] + [0]
+                mask = [1] * k + [1] + [0] * len(imm) + [1, 0, 0] + [1]
+                st = pvmgen.base_state(rng, gas=k + 20)
+                st.update({"prog": {"code": code, "mask": mask, "jt": [], "z": 0}, "id": "e%d_%d" % (k, len(imm)), "tag": "ecalli-charge",
+                           "fx": [], "gases": list(range(0, k + 15))})
+                cases.append(st)
         inv = []
         for i in range(90 if q else 3000):
             prog, _ = pvmgen.random_program(rng, clean=rng.n(4) != 0, ops=pvmgen.NOJUMPIND, forward=True)   # loop-free: large limits must terminate
@@ -57,5 +67,5 @@ def run(ctx):
     ctx.cov["rule"] = ("gas sweep 0..14 over seeded random programs and a TLC-enumerated decode-partition sample (0..4), plus Psi_M invocations with "
                        "limits around the program's cost and around 2^31, 2^63, 2^64; non-trivial = distinct runs that ended out of gas")
     ctx.cov["samples"] = [json.loads(x) for x in lines[:1] + lines[-1:]]
-    vf.validate_trace(ctx, "PVM_Trace", lines, constants={"Mode": '"c01"'}, shard=300 if q else 1500, par=14, timeout=3000,
+    vf.validate_trace(ctx, "PVM_Trace", lines, constants={"Mode": '"both"'}, shard=300 if q else 1500, par=14, timeout=3000,
                       what="gas accounting deviates from the specification")
